@@ -8,7 +8,7 @@ inlined helper / rewritten `try_for_each` are all the same thing.
 """
 from .common import *
 # helpers shared by the two modules of this owner (candidates for templates.py / common.py, see C13-NOTES.txt)
-from .C11 import reach_v, must_pass_v, EnumProbes, single_def, const_operand, plain_source, undecided_weak
+from .C11 import reach_v, must_pass_v, EnumProbes, single_def, const_operand, plain_source, undecided_weak, negligible_tests
 
 VIEW = 'norm'
 # the conversions build `f + b*s` / `f + s` with the Add kernels of the polynomial algebra; a kernel that loses
@@ -555,9 +555,56 @@ def only_param(e, p):
     return bool(leaves) and all(x[0] == 'place' and x[1] == p and not x[2] for x in leaves)
 
 
+KEYED_FILL = re.compile(r'collect::<std::collections::(BTreeMap|HashMap|BTreeSet|HashSet)<|<std::collections::(BTreeMap|HashMap|BTreeSet|HashSet)<.*> as std::iter::(FromIterator|Extend)'
+                        r'|(BTreeMap|HashMap|BTreeSet|HashSet)::<.*>::insert$')
+
+
+def bound_kernel_rules(ctx):
+    """Function::evaluate_bound, the interval both slack functions decide on: every STORED term of f contributes to it.  The interval
+    arithmetic itself is not decided here; these are the structural necessary conditions:
+       accumulates-terms   a loop over the function's own terms (`&Function: IntoIterator` of self) adds into the returned Bound
+       every-term-kept     the items of that loop reach it without passing a keyed container filled by insert / collect / extend
+                           (a map keeps ONE coefficient per monomial: a monomial stored twice — x1 + x1, (1,2) and (2,1) — would lose
+                           a term; a Vec, or a map filled by `entry += c`, does not)
+       every-term-counts   every path of an item back to the loop header passes such an addition, or the coefficient is zero"""
+    R = 'C13.bound'
+    b = ctx.method(R + '/anchor', 'v1::Function', 'evaluate_bound')
+    if b is None: return
+    S = ctx.S
+    ret = S.backslice(b, [0])
+    accs = [c for c in b.calls if re.search(r'bound::Bound as std::ops::(AddAssign|Add)\b', c.name) and c in ret.call_objs]
+    loops = []
+    for lo in T.for_loops(b):
+        si = S.slice_operand(b, lo[0].args[0])
+        if 1 in si.params and any(re.search(r"IntoIterator for &('\w+ )?v1::Function>::into_iter", c.name) for c in si.call_objs) and any(c.bb in lo[4] for c in accs):
+            loops.append((lo, si))
+    # the outermost such loop (an inner loop over the factors of a monomial also derives from the term)
+    loops = [x for x in loops if not any(y is not x and x[0][4] < y[0][4] for y in loops)]
+    ctx.check(bool(loops), R + '/accumulates-terms', 'T-LOOPMUST', b.name, 'no loop over the terms of the function adds into the returned bound', b.site())
+    if not loops: return
+    lo, si = loops[0]; nextc, header, some_bb, none_bb, blocks = lo
+    fills = sorted({c.name[:90] for c in si.call_objs if KEYED_FILL.search(c.name)})
+    ctx.check(not fills, R + '/every-term-kept', 'T-CARRY', b.name, 'the terms pass a keyed container that keeps one coefficient per monomial: %s' % fills[:2], b.site(nextc.bb))
+    via = {c.bb for c in accs if c.bb in blocks}
+    for c in b.calls:
+        if c.bb in blocks and c.item == 'is_zero' and c.args and nextc in S.slice_operand(b, c.args[0]).call_objs and not c.dst['p']:
+            for sb, neg in T.bool_flow(b, c.dst['l']):
+                t, f = T.switch_sides(b, sb, neg)
+                if t is not None: via.add(t)
+    for bi, st, x, small_true, kind in negligible_tests(ctx, b, blocks):
+        if kind == 'zero' and nextc in S.slice_operand(b, x).call_objs:
+            for sb, neg in T.bool_flow(b, st['dst']['l']):
+                t, f = T.switch_sides(b, sb, neg)
+                z = t if small_true else f
+                if z is not None: via.add(z)
+    ctx.counters['cfg_paths'] += 1
+    ctx.check(must_pass_v(b, some_bb, {header}, via), R + '/every-term-counts', 'T-LOOPMUST', b.name, 'a term with a non-zero coefficient can be skipped', b.site(nextc.bb))
+
+
 def check(ctx):
+    bound_kernel_rules(ctx)
     a = slack_rules(ctx, 'convert_inequality_to_equality_with_integer_slack', True)
     b = slack_rules(ctx, 'add_integer_slack_to_inequality', False)
     # sibling agreement on the shared guard set
     ctx.check(a == b, 'C13.sibling/guard-set', 'T-SIBLING', 'convert_… vs add_…', 'guard sets differ: convert=%s add=%s' % (sorted(a.items()), sorted(b.items())))
-    ctx.floor('C13.convert', 46); ctx.floor('C13.add', 45)
+    ctx.floor('C13.convert', 46); ctx.floor('C13.add', 45); ctx.floor('C13.bound', 3)
